@@ -184,10 +184,10 @@ func c04Reply(name string) {
 			d = &vDriver{seq: [][]byte{reply}}
 		case 1: // directed UDP
 			d = &vDriver{reply: reply}
-			u.devices[id] = Device{DeviceID: id, Address: types.ControllerAddrFrom(netip.AddrFrom4([4]byte{192, 168, 1, 100}), 60000), Protocol: "udp"}
+			vConfigure(u, id, "udp")
 		case 2: // directed TCP, nil reply without an error
 			d = &vDriver{}
-			u.devices[id] = Device{DeviceID: id, Address: types.ControllerAddrFrom(netip.AddrFrom4([4]byte{192, 168, 1, 100}), 60000), Protocol: "tcp"}
+			vConfigure(u, id, "tcp")
 		default: // transport error
 			d = &vDriver{err: errVerifTimeout}
 		}
@@ -266,6 +266,21 @@ func VerifC04_ListenHandler() {
 	verifAssert(err == nil && l.connected == 1, "listen: returns without error")
 	verifAssert(l.errors+len(p) == 2, "listen: every datagram is either queued as an event or reported as an error")
 	verifReach("c04.listen")
+}
+
+// a client whose listen address was never configured (or is not a valid address): Listen is an error, not a crash
+func VerifC04_ListenWithoutAddress() {
+	var addr netip.AddrPort
+	if nondetBool("listen.v4") {
+		addr = netip.AddrPortFrom(netip.AddrFrom4([4]byte{nondetU8("a"), nondetU8("b"), nondetU8("c"), nondetU8("d")}), 0)
+	}
+	u := &uhppote{devices: map[uint32]Device{}, driver: &ut0311{listenAddr: addr, timeout: time.Second}, listenAddr: types.ListenAddr{AddrPort: addr}}
+	l := &c04Listener{}
+	q := make(chan os.Signal, 1)
+	q <- os.Interrupt
+	err := u.Listen(l, q)
+	verifObserve("err", err != nil)
+	verifReach("c04.listen.noaddress")
 }
 
 // arbitrary argument values
